@@ -367,14 +367,61 @@ Qed.
 
 Local Transparent typehasint.
 
-(* spellings outside the grammar of 6.4.4.1 that inttype accepts (it lower-cases each letter) *)
-Theorem inttype_suffix_refuted : exists tg sfx,
-  (forall s, ~ In sfx (suffix_spellings s)) /\ inttype tg 1 true sfx = Some BLLong.
+(* conversely, every suffix inttype accepts is one of the spellings of 6.4.4.1 (before /repo 'fix: reject the integer
+   suffixes lL and Ll' this was refuted by `lL`) *)
+Lemma str_eqb_eq : forall a b, str_eqb a b = true -> a = b.
 Proof.
-  exists (mktarget 0 true BInt), [108; 76].
-  split; [|reflexivity].
-  intros s H. destruct s; simpl in H; intuition discriminate.
+  induction a as [|x a IH]; destruct b as [|y b]; simpl; intros H; try discriminate; [reflexivity|].
+  apply andb_true_iff in H. destruct H as [H1 H2]. apply Z.eqb_eq in H1. subst. f_equal. apply IH. exact H2.
 Qed.
+
+Lemma suffix_index_found : forall l, Nat.eqb (suffix_index limits l 0) 6 = false ->
+  In l [[]; [117]; [108]; [117;108]; [108;117]; [108;108]; [117;108;108]; [108;108;117]].
+Proof.
+  intros l H. unfold limits in H. cbn [suffix_index negb] in H.
+  destruct (str_eqb l []) eqn:E0; [apply str_eqb_eq in E0; subst; simpl; tauto|].
+  destruct (str_eqb l [117]) eqn:E1; [apply str_eqb_eq in E1; subst; simpl; tauto|].
+  destruct (str_eqb l [108]) eqn:E2; [apply str_eqb_eq in E2; subst; simpl; tauto|].
+  destruct (str_eqb l [117;108]) eqn:E3; [apply str_eqb_eq in E3; subst; simpl; tauto|].
+  destruct (str_eqb l [108;117]) eqn:E4; [apply str_eqb_eq in E4; subst; simpl; tauto|].
+  destruct (str_eqb l [108;108]) eqn:E5; [apply str_eqb_eq in E5; subst; simpl; tauto|].
+  destruct (str_eqb l [117;108;108]) eqn:E6; [apply str_eqb_eq in E6; subst; simpl; tauto|].
+  destruct (str_eqb l [108;108;117]) eqn:E7; [apply str_eqb_eq in E7; subst; simpl; tauto|].
+  simpl in H. discriminate.
+Qed.
+
+Lemma tolower_u : forall c, tolower c = 117 -> c = 117 \/ c = 85.
+Proof. intros c. unfold tolower. destruct ((65 <=? c) && (c <=? 90)) eqn:E; lia. Qed.
+Lemma tolower_l : forall c, tolower c = 108 -> c = 108 \/ c = 76.
+Proof. intros c. unfold tolower. destruct ((65 <=? c) && (c <=? 90)) eqn:E; lia. Qed.
+
+Ltac pick_spelling :=
+  first [ exists SNone; cbn; tauto | exists SU; cbn; tauto | exists SL; cbn; tauto | exists SUL; cbn; tauto
+        | exists SLL; cbn; tauto | exists SULL; cbn; tauto ].
+
+Theorem inttype_suffix_complete : forall tg v decimal sfx b,
+  inttype tg v decimal sfx = Some b -> exists s, In sfx (suffix_spellings s).
+Proof.
+  intros tg v decimal sfx b H. unfold inttype in H.
+  destruct (mixed_ll sfx) eqn:M; [discriminate|].
+  destruct (Nat.eqb (suffix_index limits (map tolower sfx) 0) (length limits)) eqn:E; [discriminate|]. clear H.
+  apply suffix_index_found in E.
+  destruct sfx as [|c1 [|c2 [|c3 [|c4 r]]]]; simpl in E;
+    repeat (destruct E as [E|E]; [try discriminate E|]); try contradiction;
+    try (injection E as E1 E2 E3); try (injection E as E1 E2); try (injection E as E1);
+    repeat match goal with
+           | H : _ = tolower _ |- _ => symmetry in H
+           | H : tolower _ = 117 |- _ => apply tolower_u in H; destruct H; subst
+           | H : tolower _ = 108 |- _ => apply tolower_l in H; destruct H; subst
+           end;
+    try (simpl in M; discriminate M); pick_spelling.
+Qed.
+
+(* the rejection itself: `1lL` and `1Ll` have no type *)
+Theorem inttype_mixed_ll_rejected : forall tg v decimal,
+  inttype tg v decimal [108; 76] = None /\ inttype tg v decimal [76; 108] = None /\
+  inttype tg v decimal [117; 76; 108] = None /\ inttype tg v decimal [108; 76; 85] = None.
+Proof. intros. repeat split; reflexivity. Qed.
 
 Theorem floattype_spec : forall sfx b, In (sfx, b) float_suffixes -> floattype sfx = Some b.
 Proof.
@@ -732,6 +779,17 @@ Theorem cond_null_spec : forall tg p w v,
 Proof.
   intros tg p w v Hp. destruct p; try discriminate Hp. split; reflexivity.
 Qed.
+
+(* 6.3.2.3p3: only an integer constant 0 or such a constant cast to an UNQUALIFIED pointer to void is a null pointer constant
+   (since /repo bc52b9e, 'fix: only an unqualified null pointer to void is a null pointer constant') *)
+Theorem nullpointer_qualified_void : forall q w v, q <> 0 ->
+  nullpointer (mkop (TPtr TVoid q) w (Some v)) = false.
+Proof.
+  intros q w v Hq. unfold nullpointer. cbn.
+  destruct (q =? 0) eqn:E; [apply Z.eqb_eq in E; contradiction|]. reflexivity.
+Qed.
+Theorem nullpointer_void_zero : forall w, nullpointer (mkop (TPtr TVoid 0) w (Some 0)) = true.
+Proof. reflexivity. Qed.
 
 (* ------------------------------------------------------------------ assignment conversion *)
 (* 6.5.16.1p1 on the pointer bullet: accepted iff the right operand is a null pointer constant, or a
